@@ -28,6 +28,10 @@ fn peer_sender(t: &mut Tape, p: Props, thorough: bool, trace: bool) -> Outcome {
     scen_peer::run_sender(t, p, thorough, trace)
 }
 
+fn peer_states(t: &mut Tape, p: Props, thorough: bool, trace: bool) -> Outcome {
+    scen_peer::run_states(t, p, thorough, trace)
+}
+
 const REAL: &str = "smoltcp::iface::Interface, SocketSet, all socket types used by the scenario, wire, storage, iface::{neighbor,route,fragmentation} - built from /repo's working tree";
 const STUB: &str = "device (SimDevice), link, clock, application workload, scripted peers (own codec, no smoltcp::wire)";
 
@@ -72,11 +76,38 @@ fn defs() -> &'static [CheckDef] {
                 thorough_s: 600.0,
             },
             CheckDef {
+                id: "C03",
+                props: Props::of(&["C03"]),
+                scens: vec![
+                    Scen { name: "tcp-peer-receiver", weight: 2, run: peer_receiver },
+                    Scen { name: "tcp-peer-sender", weight: 1, run: peer_sender },
+                    Scen { name: "tcp-peer-states", weight: 2, run: peer_states },
+                    Scen { name: "tcp-pair-safety", weight: 1, run: tcp_safety },
+                ],
+                rule: "every call into the library runs under catch_unwind and a watchdog; one run = one seeded scenario execution (adversarial frame sequences, scripted TCP peers, two-node faulty links); non-trivial per scenario rule; distinct = event-log hash",
+                assumptions: vec!["build profile: release with debug-assertions and overflow-checks (what a development build of a user sees)"],
+                real: REAL,
+                stub: STUB,
+                quick_s: 20.0,
+                thorough_s: 600.0,
+            },
+            CheckDef {
                 id: "C04",
                 props: Props::of(&["C04"]),
                 scens: vec![Scen { name: "tcp-peer-receiver", weight: 1, run: peer_receiver }],
                 rule: "one run = one real TCP socket facing a scripted peer that sends tape-chosen segments placed relative to the victim's current window (left, straddling, in sequence, inside, at/over the right edge), with/without FIN, valid/stale ACK fields, interleaved with reads and time; non-trivial = >= 3 segments and at least one overlapping/out-of-order or beyond-window segment; distinct = event-log hash",
                 assumptions: vec!["the peer is consistent: the byte at sequence number s is a fixed function of s and FIN sits at one fixed position", "max_burst_size = None"],
+                real: REAL,
+                stub: STUB,
+                quick_s: 20.0,
+                thorough_s: 600.0,
+            },
+            CheckDef {
+                id: "C17",
+                props: Props::of(&["C17"]),
+                scens: vec![Scen { name: "tcp-peer-states", weight: 1, run: peer_states }],
+                rule: "one run = a sequence of single stimuli (one API call, one segment via poll_ingress_single, or one timed egress pass) applied to a real socket from whatever state it is in; state() observed before/after each; non-trivial = >= 10 stimuli and >= 2 state changes; distinct = event-log hash",
+                assumptions: vec!["no user timeout / keep-alive configured, so an egress pass alone may only expire TIME-WAIT", "reference RCV.NXT is derived from the socket's public byte counters (bytes read + recv_queue), the window edge and ISS from the wire"],
                 real: REAL,
                 stub: STUB,
                 quick_s: 20.0,
